@@ -102,6 +102,12 @@ def run(ctx: Ctx):
         elif not att or not g.dominated(g.exit, att):
             ctx.fail(cons, f.loc(), "a DPA does not wake the I/O loop (demand_attention): the "
                      "connection is only closed at the next unrelated wake-up")
+        elif not g.always_followed(st[0], att, exits=[g.exit]):
+            ctx.fail(cons + "#publish-then-signal", g.loc(st[0]), "the I/O loop is woken before the "
+                     "connection is put into PEER_CLOSING (no wake-up follows the state store): if "
+                     "the node thread handles the wake-up in that gap it still sees DISCONNECTING, "
+                     "does nothing, and nobody signals again - the connection lingers until the "
+                     "wait timeout although the DPA arrived")
     f = nc.methods.get("send_dpr")
     cons = "Node.send_dpr"
     ctx.inst(cons)
@@ -170,6 +176,21 @@ def run(ctx: Ctx):
     if not ok:
         ctx.fail(cons, g.loc(cn), "a peer that disconnected with a DPR and is not marked "
                  "always_reconnect can be dialled again")
+    # ... and under no further condition: the policy names every exception
+    cons = "_reconnect_peers:no-extra-guard"
+    known_attrs = {"persistent", "connection", "last_disconnect", "reconnect_wait", "disconnected_since",
+                   "disconnect_reason", "always_reconnect"}
+    ctx.inst(cons, sample=[list(map(str, x)) for x in facts])
+    import re as _re
+    for fx in facts:
+        txt = f"{fx[0]} {fx[2] if isinstance(fx[2], str) else ''}"
+        extra_self = [a for a in _re.findall(r"\bself\.(\w+)", txt) if a not in ("_stopping", "peers")]
+        extra_peer = [a for a in _re.findall(rf"\b{_re.escape(p)}\.(\w+)", txt) if a not in known_attrs]
+        if extra_self or extra_peer:
+            ctx.fail(cons, g.loc(cn), f"the redial is additionally conditioned on {fx}: a persistent "
+                     f"peer whose wait has elapsed (no DPR, node running, no connection) is not "
+                     f"dialled while that condition is false")
+            break
     cons = "_reconnect_peers:iterates-peers"
     ctx.inst(cons)
     loops = [n for n in g.nodes if n.kind == "iter"]
@@ -303,3 +324,12 @@ def run(ctx: Ctx):
     disconnect_record(ctx, "C12-R4b")
     ready_state_stores(ctx, "C12-R5")
     ready_constants(ctx, "C12-R6")
+    from . import c06, c14
+    ctx.include(c06.run, {"C06-R1"}, "C12-R7",
+                "dispatch gate: in every state other than CONNECTED / CLOSING / CLOSED a received "
+                "DPR reaches receive_dpr (nothing is dropped in READY, READY_WAITING_DWA or "
+                "DISCONNECTING, e.g. a DPR crossing our own)", floor=9)
+    ctx.include(c14.run, {"C14-R4"}, "C12-R8",
+                "the I/O loop that runs _reconnect_peers iterates snapshots of the tables its "
+                "own body resizes (a RuntimeError there ends the thread and with it every redial)",
+                floor=6)
